@@ -5,6 +5,10 @@ open BsVerif BsVerif.Proto BsVerif.Bp Driver.C01
 
 structure St where
   s : Bp.St := { τ := [], code := fun _ => 0 }
+  ecx : Bp.Ecx := {}
+  -- the last step ended outside the executable: the thread's pc (hence the refreshed exploration context) is not a
+  -- position of the trace machine; a context READ prints `out` for it until the context is set again
+  ecxOut : Bool := false
   afterFault : Bool := false   -- a command ran with an injected ptrace failure: the model has no failure points
 
 def showSOut (o : SOut) (s : Bp.St) : String :=
@@ -14,10 +18,28 @@ def showSOut (o : SOut) (s : Bp.St) : String :=
   | .done none => "done end p=" ++ showPokes s.pokes
 
 def run (st : St) (op : SOp) : St × String :=
-  let (s, o) := execS st.s op
-  ({ s := s }, showSOut o s)
+  let (c, o) := execSC { m := st.s, ecx := st.ecx } (.base op)
+  -- every command that runs the program refreshes the exploration context
+  let keep := match op with | .base (.brk _) => st.ecxOut | .base (.remove _) => st.ecxOut | _ => false
+  ({ st with s := c.m, ecx := c.ecx, ecxOut := keep },
+   match o with
+   | .base o => showSOut o c.m
+   | .ctx e => showCtx e c.m)
+
+def runCtx (st : St) (x : CtxOp) : St × String :=
+  let (c, o) := execSC { m := st.s, ecx := st.ecx } (.ctx x)
+  let isFrame := match x with | .frame _ (some _) => true | _ => false
+  let out := match o with
+    | .ctx (some e) =>
+      if st.ecxOut && !isFrame then "ctx " ++ toString e.frame ++ " out p=" ++ showPokes c.m.pokes else showCtx (some e) c.m
+    | .ctx none => showCtx none c.m
+    | .base o => showSOut o c.m
+  ({ st with s := c.m, ecx := c.ecx, ecxOut := st.ecxOut && !(isFrame && c.m.status == .inProgress) }, out)
 
 def stepLive (st : St) : List String → St × String
+  | "frame" :: rest => match decCtx? ("frame" :: rest) with
+    | some x => runCtx st x
+    | none => (st, "bad-op")
   | ["break", a] => match hexNat? a with
     | some a => run st (.base (.brk a))
     | none => (st, "bad-op")
@@ -33,15 +55,18 @@ def stepLive (st : St) : List String → St × String
     | none => (st, "bad-op")
   -- the step ended outside the executable (libc, ld.so): the trace machine has no pc for that; only the
   -- bookkeeping (position, pokes) is compared
-  | ["stepi", "out"] => let (st', _) := run st (.stepn 1); (st', "done out p=" ++ showPokes st'.s.pokes)
+  | ["stepi", "out"] =>
+    let (st', _) := run st (.stepn 1); ({ st' with ecxOut := true }, "done out p=" ++ showPokes st'.s.pokes)
   | ["step", k, "out"] => match decNat? k with
-    | some k => let (st', _) := run st (.stepn k); (st', "done out p=" ++ showPokes st'.s.pokes)
+    | some k => let (st', _) := run st (.stepn k); ({ st' with ecxOut := true }, "done out p=" ++ showPokes st'.s.pokes)
     | none => (st, "bad-op")
   -- `next`/`finish` with the temporaries the implementation installed and the number of trailing single steps
   | [_cmd, temps, k] => match decList? hexNat? temps, decNat? k with
     | some t, some k => if _cmd == "next" || _cmd == "finish" then run st (.tempRun t k) else (st, "bad-op")
     | _, _ => (st, "bad-op")
-  | _ => (st, "bad-op")
+  | toks => match decCtx? toks with
+    | some x => runCtx st x
+    | none => (st, "bad-op")
 
 def step (st : St) : List String → St × String
   | "new" :: rest =>
